@@ -342,6 +342,8 @@ def main(argv):
         print('replay of %s: %s' % (rp, {True: 'reproduced', False: 'NOT reproduced', None: 'no native replay available for this witness'}[ok]))
         print(json.dumps(d.get('witness'), indent=1, default=str)[:3000])
         return 1 if ok else 0
+    # per-query solver cap: 60 s quick, 600 s thorough (an `unknown` answer makes the run inconclusive, never a pass)
+    os.environ.setdefault('VERIF_SOLVER_TIMEOUT_MS', '60000' if tier == 'quick' else '600000')
     ctx = Ctx(pid, tier, seed)
     try:
         mod = importlib.import_module('props.' + pid)
